@@ -53,6 +53,9 @@ def build_import_family(desc):
     cu1_kids.append(var(b"z1"))
     cu1 = g.cu_root(b"one.c", version=version, children=cu1_kids)
     cu2_kids = [var(b"a2")] + [imp(pus[i]) for i in range(3) if cu2 >> i & 1] + [var(b"z2", children=[var(b"in2")], tag="DW_TAG_subprogram")]
+    if len(desc) > 6 and desc[6]:
+        # a DW_TAG_imported_unit that points at a full compile unit (as LTO output does): inlined like any other import
+        cu2_kids.insert(1, imp(cu1))
     cu2 = g.cu_root(b"two.c", version=version, children=cu2_kids)
     # unit order: CU1, PU0, CU2, PU1, PU2  (imports point forwards and backwards)
     roots = [cu1, pus[0], cu2, pus[1], pus[2]]
@@ -77,6 +80,15 @@ def family_bodies(thorough):
             for modes in (((1, 1, 1), (3, 0, 2), (0, 1, 2), (2, 2, 0)) if thorough else ((1, 1, 1), (3, 0, 2), (0, 1, 2))):
                 for cu2 in (0, 7):
                     yield (edges, modes, cu2, 0, 2 + (edges + sum(modes) + cu2 + sum(bodies)) % 4, bodies)
+
+
+def family_cuimport():
+    """The second compile unit imports the first one (used by C06's cooked-children comparison only: what `parent` and
+    `root` should be for DIEs of a FULL unit reached through an import is outside C05's quantifier)."""
+    for edges in (0, 5, 7):
+        for modes in ((0, 0, 0), (1, 1, 1), (3, 0, 2), (0, 1, 2)):
+            for cu2 in (0, 5):
+                yield (edges, modes, cu2, 0, 2 + (edges + sum(modes) + cu2) % 4, (2, 2, 2), 1)
 
 
 LAWS = {
@@ -240,7 +252,7 @@ def replay(case):
             r = _sample_worker(d, [case["file"]], None)
             return any(b[2]["qid"] == case["qid"] for b in r["bad"])
         desc = json.loads(case["desc"])
-        desc = (desc[0], tuple(desc[1]), desc[2], desc[3], desc[4]) + ((tuple(desc[5]),) if len(desc) > 5 else ())
+        desc = (desc[0], tuple(desc[1]), desc[2], desc[3], desc[4]) + ((tuple(desc[5]),) if len(desc) > 5 else ()) + tuple(desc[6:])
         elf = build_import_family(desc)
         os.makedirs(dwbattery.DWDIR, exist_ok=True)
         path = os.path.join(dwbattery.DWDIR, "c05-replay-%d.o" % os.getpid())
